@@ -259,7 +259,7 @@ Section FractionQ.
   Proof.
     intros idx sr fp px py Hsr [H0 H1] Hx Hy. subst px py. cbn [ndiv nadd nofZ Num_Q]. rewrite !Qred_correct.
     assert (Hs : ~ inject_Z sr == 0).
-    { intros H. change 0 with (inject_Z 0) in H. apply inject_Z_injective in H. lia. }
+    { intros H. unfold Qeq, inject_Z in H. cbn [Qnum Qden] in H. lia. }
     assert (E : ((inject_Z idx + fp) / inject_Z sr - inject_Z idx / inject_Z sr) * inject_Z sr == fp) by (field; exact Hs).
     rewrite E. split; assumption.
   Qed.
